@@ -1768,7 +1768,7 @@ fn cached_router_case(case_seed: u64, r: &mut Report) {
     }
     // model: id -> (k, v, s)
     let mut model: BTreeMap<u64, (i64, i64, String)> = BTreeMap::new();
-    let names = ["bob", "Bob", "BOB", "amy", "Amy"];
+    let names = ["bob", "Bob", "BOB", "amy", "Amy", "a b", "a  b", " a b", "a\tb"];
     // a small pool of SELECT texts so that the same text is asked again after writes
     let selects: Vec<(String, Box<dyn Fn(&(i64, i64, String)) -> bool>)> = vec![
         ("SELECT * FROM ct".to_string(), Box::new(|_| true)),
@@ -1780,6 +1780,13 @@ fn cached_router_case(case_seed: u64, r: &mut Report) {
         ("SELECT * FROM ct WHERE s = 'BOB'".to_string(), Box::new(|t| t.2 == "BOB")),
         ("select * from ct where s = 'amy'".to_string(), Box::new(|t| t.2 == "amy")),
         ("SELECT * FROM ct WHERE s = 'Amy'".to_string(), Box::new(|t| t.2 == "Amy")),
+        // texts that differ only in white space INSIDE a string literal are different questions
+        ("SELECT * FROM ct WHERE s = 'a b'".to_string(), Box::new(|t| t.2 == "a b")),
+        ("SELECT * FROM ct WHERE s = 'a  b'".to_string(), Box::new(|t| t.2 == "a  b")),
+        ("SELECT * FROM ct WHERE s = ' a b'".to_string(), Box::new(|t| t.2 == " a b")),
+        ("SELECT * FROM ct WHERE s = 'a\tb'".to_string(), Box::new(|t| t.2 == "a\tb")),
+        // ... and texts that differ only in white space OUTSIDE literals are the same question
+        ("SELECT  *  FROM ct   WHERE s = 'a b'".to_string(), Box::new(|t| t.2 == "a b")),
     ];
     let steps = 12 + rng.below(30);
     for _ in 0..steps {
